@@ -17,6 +17,7 @@
   state in which the resumed process halts next (`outcome`).
 -/
 import YashModel.Job.Model
+import YashModel.Generated.JobTables
 namespace YashModel.Job
 
 abbrev Str := List Char
@@ -63,24 +64,21 @@ def natStr (n : Nat) : Str := (toString n).toList
 def padRight (w : Nat) (s : Str) : Str := s ++ List.replicate (w - s.length) ' '
 def padLeft (w : Nat) (s : Str) : Str := List.replicate (w - s.length) ' ' ++ s
 
-/-- `Signals::sig2str` for the numbers of `VirtualSystem` (`system/virtual/signal.rs`), `???` for the
-    rest (`unwrap_or("???")` in `State::from_process_state`) -/
+/-- `Signals::sig2str` (the provided method of yash-env/src/system/signal.rs) for `VirtualSystem`: the
+    ordered arms are `Generated.JobTables.sig2strTable` (re-extracted from /repo on every run by
+    tools/tables/job.py, first match wins); the real-time arm: `RTMIN`, `RTMAX`, `RTMIN+k` up to
+    the midpoint of the range, `RTMAX-k` above it; `???` for the rest (`unwrap_or("???")` in
+    `State::from_process_state`) -/
 def sigName (n : Nat) : Str :=
-  let named : List (Nat × String) :=
-    [(6, "ABRT"), (14, "ALRM"), (101, "BUS"), (102, "CHLD"), (103, "CONT"), (105, "FPE"), (1, "HUP"),
-     (106, "ILL"), (2, "INT"), (9, "KILL"), (110, "PIPE"), (3, "QUIT"), (114, "SEGV"), (116, "STOP"),
-     (15, "TERM"), (120, "TSTP"), (121, "TTIN"), (122, "TTOU"), (124, "USR1"), (125, "USR2"),
-     (111, "POLL"), (112, "PROF"), (117, "SYS"), (119, "TRAP"), (123, "URG"), (126, "VTALRM"),
-     (127, "WINCH"), (128, "XCPU"), (129, "XFSZ"), (104, "EMT"), (107, "INFO"), (108, "IO"),
-     (109, "LOST"), (113, "PWR"), (115, "STKFLT"), (118, "THR")]
-  match named.find? (·.1 = n) with
+  match Generated.JobTables.sig2strTable.find? (·.1 = n) with
   | some (_, s) => s.toList
   | none =>
-    -- real-time signals 201 ..= 209
-    if n = 201 then "RTMIN".toList
-    else if n = 209 then "RTMAX".toList
-    else if 201 < n ∧ n < 209 then
-      (if n ≤ 205 then "RTMIN+".toList ++ natStr (n - 201) else "RTMAX-".toList ++ natStr (209 - n))
+    let rtmin := Generated.JobTables.SIGRTMIN
+    let rtmax := Generated.JobTables.SIGRTMAX
+    if n = rtmin then "RTMIN".toList
+    else if n = rtmax then "RTMAX".toList
+    else if rtmin < n ∧ n < rtmax then
+      (if n ≤ (rtmin + rtmax) / 2 then "RTMIN+".toList ++ natStr (n - rtmin) else "RTMAX-".toList ++ natStr (rtmax - n))
     else "???".toList
 
 /-- `impl Display for State` after `State::from_process_state` -/
@@ -475,6 +473,121 @@ def JobList.reportLast (s : JobList) : JobList :=
     | none => s
     | some j => { s with entries := s.entries.set i (some { j with changed := false }) }
 
+/-! ### extension round: status changes reported by the system, the prompt report, `kill %job`, `$!` -/
+
+/-- a state change `(pid, new state)` that `System::wait` reports -/
+abbrev Ev := Nat × PState
+
+/-- What the operating system contributes (played by the harness): a child process changes its state
+    only while it is alive, and to a state different from the one it is in; a process exists for every
+    job of the table that is alive, in the recorded state.  `eventApplies s ev`: the event is one the
+    system can deliver for the table `s`. -/
+def eventApplies (s : JobList) (ev : Ev) : Bool :=
+  match (lookup s.pids ev.1).bind (gets s.entries) with
+  | some j => j.state.isAlive && decide (j.state ≠ ev.2)
+  | none => false
+
+/-- `self.jobs.update_status(pid, state)` for a delivered event -/
+def applyEvent (s : JobList) (ev : Ev) : JobList :=
+  if eventApplies s ev then (s.updateStatus ev.1 ev.2).2 else s
+
+/-- `Env::update_all_subshell_statuses` (yash-env/src/lib.rs):
+    `while let Ok(Some((pid, state))) = self.system.wait(Pid::ALL) { self.jobs.update_status(pid, state); }`;
+    `evs` = the changes the system has pending, in the order `wait` hands them out -/
+def updateAll (s : JobList) (evs : List Ev) : JobList := evs.foldl applyEvent s
+
+/-- `state_reported()` on `get_mut(index).unwrap()` -/
+def JobList.markReported (s : JobList) (i : Nat) : JobList :=
+  match gets s.entries i with
+  | none => s      -- `unwrap` would panic; the indices come from `iter()`
+  | some j => { s with entries := s.entries.set i (some { j with changed := false }) }
+
+/-- `input::reporter::report` (yash-env/src/input/reporter.rs), run by `Reporter::next_line` before an
+    interactive shell reads a line: nothing unless `interactive` and `monitor` are on; otherwise the
+    jobs with `state_changed` go through `Accumulator::add` (default format, markers of the current
+    table), the text is written to standard error and, the write having succeeded, every reported
+    job gets `state_reported()`.  Nothing is removed. -/
+def promptReport (s : JobList) (monitor inter : Bool) : Str × JobList :=
+  if !inter || !monitor then ([], s)
+  else
+    let idxs := matchingIdx s.entries (·.changed) 0
+    (jobsPrint s false false idxs, idxs.foldl JobList.markReported s)
+
+/-- `wait::status::wait_while_running` over `wait::core::wait_for_any_job_or_trap` (no signal other
+    than `SIGCHLD` arrives): test; on `Continue` take the next state change the system reports and
+    pass it to `update_status`; when no child is left to report anything `wait` fails with `ECHILD`
+    (`Error::NothingToWait`, result `none`).  Returns also the events not consumed. -/
+def waitWhile (test : JobList → Option Nat × JobList) : List Ev → JobList → Option Nat × JobList × List Ev
+  | [], s =>
+    match test s with
+    | (some st, s') => (some st, s', [])
+    | (none, s') => (none, s', [])
+  | ev :: rest, s =>
+    match test s with
+    | (some st, s') => (some st, s', ev :: rest)
+    | (none, s') => waitWhile test rest (applyEvent s' ev)
+
+/-- `any_job_is_running(Off)` as a test for `wait_while_running` -/
+def waitAllTest (s : JobList) : Option Nat × JobList :=
+  match waitAll s with
+  | (true, s') => (some 0, s')
+  | (false, s') => (none, s')
+
+/-- `Command::await_jobs` over the resolved operands with the pending events threaded through -/
+def waitSeqEv : List (Option Nat) → List Ev → JobList → Nat → Option Nat × JobList
+  | [], _, s, last => (some last, s)
+  | none :: rest, evs, s, _ => waitSeqEv rest evs s 127
+  | some i :: rest, evs, s, _ =>
+    match waitWhile (fun t => jobStatus t i) evs s with
+    | (some st, s', evs') => waitSeqEv rest evs' s' st
+    | (none, s', _) => (none, s')
+
+/-- `wait::main` when the system reports the state changes `evs` (one per blocking `wait`), then has
+    no child left.  `waitBuiltin` is the case `evs = []` (`waitBuiltinEv_nil`). -/
+def waitBuiltinEv (s : JobList) (evs : List Ev) (args : List Str) : Out × JobList :=
+  match parseArgs [] args with
+  | none => ({ status := 2, errs := ["unkopt"] }, s)
+  | some (_, operands) =>
+    match operands.mapM waitSpecOf with
+    | none => ({ status := 2, errs := ["badspec"] }, s)
+    | some specs =>
+      let r := resolveAll s specs
+      if r.2 ≠ 0 then ({ status := 2, errs := List.replicate r.2 "amb" }, s)
+      else if r.1.isEmpty then
+        match waitWhile waitAllTest evs s with
+        | (some st, s', _) => ({ status := st }, s')
+        | (none, s', _) => ({ status := 1, errs := ["nowait"] }, s')
+      else
+        match waitSeqEv r.1 evs s 0 with
+        | (some st, s') => ({ status := st }, s')
+        | (none, s') => ({ status := 1, errs := ["nowait"] }, s')
+
+/-- `kill::send::resolve_target` (yash-builtin/src/kill/send.rs): the argument of the `kill` system
+    call for one operand of the `kill` built-in.  `%…` is a job ID (`parse_tail` + `find`): the
+    NEGATED pid (the process group) of a job that is owned, job-controlled and alive.  Anything else
+    is `str::parse::<i32>()`.  Result: `(negative, magnitude)` or the error class. -/
+def killTarget (s : JobList) (target : Str) : Except String (Bool × Nat) :=
+  match target with
+  | '%' :: tail =>
+    match (parseTail tail).find s with
+    | .error e => .error (findErrClass e)
+    | .ok index =>
+      match gets s.entries index with
+      | none => .error "panic"          -- `jobs[index]`; `find` only returns occupied slots
+      | some job =>
+        if !job.owned then .error "unowned"
+        else if !job.jc then .error "unmon"
+        else if !job.state.isAlive then .error "finished"
+        else .ok (true, job.pid)
+  | _ =>
+    match parseI32 target with
+    | some r => .ok r
+    | none => .error "badpid"
+
+/-- the expansion of `$!` (yash-semantics/src/expansion/initial/param/resolve.rs
+    `non_zero_pid_or_unset(env.jobs.last_async_pid())`): unset while no asynchronous command has run -/
+def bangValue (s : JobList) : Option Nat := if s.lastAsync ≠ 0 then some s.lastAsync else none
+
 /-! ### Operations as data, for histories -/
 
 inductive Op where
@@ -502,6 +615,12 @@ inductive Op where
   | jobsClosed (args : List Str)
   | ampFail
   | reportLast
+  -- extension round
+  | sync (evs : List Ev)
+  | prompt (monitor inter : Bool)
+  | waitEv (evs : List Ev) (args : List Str)
+  | kres (arg : Str)
+  | bang
   deriving Repr
 
 def step (s : JobList) : Op → JobList
@@ -526,6 +645,11 @@ def step (s : JobList) : Op → JobList
   | .jobsClosed args => (jobsClosed s args).2
   | .ampFail => s
   | .reportLast => s.reportLast
+  | .sync evs => updateAll s evs
+  | .prompt m i => (promptReport s m i).2
+  | .waitEv evs args => (waitBuiltinEv s evs args).2
+  | .kres _ => s
+  | .bang => s
 
 def run (s : JobList) (ops : List Op) : JobList := ops.foldl step s
 
